@@ -15,13 +15,13 @@ import (
 func init() {
 	register(&PropDef{
 		ID: "C16", Level: "exploration", Quick: 15000, Thorough: 300000, QuickCap: 110,
-		Rule:   "three sub-workloads drawn per run. policy: random rule trees (max-versions, max-age, nested unions, intersection, none) per family over cells whose timestamps sit exactly at, 1 ms before and after the cut-off (server clock drawn so that now-age falls on, just below and just above a cell), one forced pass, every table compared with the GC model. concurrent: one pass task plus 1-3 add-only writer tasks (one writer per row) on tables of 1-400 rows under the seeded scheduler; per row GC(M) <= final <= M. activity: a non-forced pass 1 ms..1 s of wall clock after a read or write must collect nothing (and after an idle jump of hours it is expected to collect - probe only). distinct = hash of (sub-workload, rules, trace); non-trivial = concurrent run with a write completed inside the pass, or a policy run that condemned at least one cell",
+		Rule:   "four sub-workloads drawn per run. policy: random rule trees (max-versions, max-age, nested unions, intersection, none) per family over cells whose timestamps sit exactly at, 1 ms before and after the cut-off (server clock drawn so that now-age falls on, just below and just above a cell), one forced pass (a third of the runs over 30-230 rows inserted once in key order, so that the pass rewrites rows in structures as a bulk load leaves them), every table compared with the GC model. concurrent: one pass task plus 1-3 add-only writer tasks (one writer per row) on tables of 1-400 rows under the seeded scheduler; per row GC(M) <= final <= M. activity: a non-forced pass 1 ms..1 s of wall clock after a read or write must collect nothing (and after an idle jump of hours it is expected to collect - probe only). round: the server's real gcloop (timer wait, round assembly, one pass per table in turn) runs as a task over a large and a small table that have been idle for hours; a client that sees the pass over the large table under way writes to the small one; if the loop never looks at the clock again after that observation, it must not collect the small table in this round. distinct = hash of (sub-workload, rules, trace); non-trivial = concurrent run with a write completed inside the pass, or a policy run that condemned at least one cell",
 		Real:   []string{"bttest table.gc, applyGC, gc quiescence test, MutateRow, ReadRows", "all engines (the concurrent sub-workload includes the btree engine since the pass restarts its iteration after every lock hand-over, see DESIGN 2.1)"},
-		Stub:   []string{"gcloop's timer (the pass itself is the real code, started by the simulator)", "wall clock and server clock (simulator-owned)", "cooperative table mutex"},
+		Stub:   []string{"gcloop's timer (the round sub-workload runs the real loop body and round assembly; the other sub-workloads start single passes directly)", "wall clock and server clock (simulator-owned)", "cooperative table mutex"},
 		Assume: []string{"writers in the concurrent sub-workload only add cells, so that GC(M_final) <= final is implied by the statement for every pass instant", "the activity sub-workload uses no constant from the code: 'in use' = touched at most 1 s of wall clock ago"},
 		Run:    runC16,
 	})
-	expectedProbes["C16"] = []string{"c16.condemned", "c16.many_rows_pass", "c16.boundary_cell", "c16.write_inside_pass", "c16.active_table_skipped", "c16.touched_after_long_idle", "c16.rows_wholly_condemned", "c16.server_clock_skewed", "c16.idle_table_collected", "c16.union", "c16.intersection_untouched"}
+	expectedProbes["C16"] = []string{"c16.condemned", "c16.many_rows_pass", "c16.round_skipped_table_used_during_round", "c16.boundary_cell", "c16.write_inside_pass", "c16.active_table_skipped", "c16.touched_after_long_idle", "c16.rows_wholly_condemned", "c16.server_clock_skewed", "c16.idle_table_collected", "c16.union", "c16.intersection_untouched"}
 }
 
 func c16Rule(d *draws) *btapb.GcRule {
@@ -75,15 +75,17 @@ func ageMicros(g *btapb.GcRule) []int64 {
 
 func runC16(r *Run) {
 	cfg := r.T.S("cfg")
-	mode := cfg.Weighted([]int{4, 4, 2})
-	if r.Index < 6 {
-		mode = r.Index % 3
+	mode := cfg.Weighted([]int{4, 4, 2, 1})
+	if r.Index < 8 {
+		mode = r.Index % 4
 	}
 	switch mode {
 	case 0:
 		c16Policy(r, cfg)
 	case 1:
 		c16Concurrent(r, cfg)
+	case 3:
+		c16Loop(r, cfg)
 	default:
 		c16Activity(r, cfg)
 	}
